@@ -14,9 +14,9 @@ import vrun
 from gen import Gen
 from common import cerberus, real_error, canon_errors
 
-LEVEL = "exploration"
-COQ_FILES = []
-FACT_GROUPS = []
+LEVEL = "proof"
+COQ_FILES = ['theories/Model/Validate.v', 'theories/Proofs/RefProofs.v', 'theories/Properties/C14.v']
+FACT_GROUPS = ['F6']
 ALLOWED_AXIOMS = []
 TRUSTED_BASE = [
     "Coq 8.16.1 kernel; Print Assumptions: closed under the global context",
